@@ -338,11 +338,13 @@ func writeAtomically(b []byte, filename string) error {
 	if err != nil {
 		return fmt.Errorf("%s: %w", filename, err)
 	}
-	if fi, err := os.Stat(filename); err == nil {
-		// keep the permission bits of the file that is being replaced
-		if err := tempFile.Chmod(fi.Mode().Perm()); err != nil {
-			return fmt.Errorf("%s: %w", filename, err)
-		}
+	// keep the permission bits of the file that is being replaced
+	fi, err := os.Stat(filename)
+	if err != nil {
+		return fmt.Errorf("%s: %w", filename, err)
+	}
+	if err := tempFile.Chmod(fi.Mode().Perm()); err != nil {
+		return fmt.Errorf("%s: %w", filename, err)
 	}
 	if _, err := tempFile.Write(b); err != nil {
 		return fmt.Errorf("%s: %w", filename, err)
